@@ -38,7 +38,7 @@ func init() { Register(c14{}) }
 func (c14) ID() string       { return "C14" }
 func (c14) New() interface{} { return &C14Case{} }
 func (c14) Rule() string {
-	return "each run: a nucleotide or protein alignment of 1-7 rows x 1-10 columns whose columns are drawn from small palettes (2-3 letters, so that ties for the most frequent character are the rule), with all-gap, all-N/X, gap+N and single-kind columns and mixed case in a quarter of the runs; ~45 statistics are evaluated under map-iteration seeds a, a again, b and c (Go's map order is behind the seam spliced by seamgen); site indices -1, L, L+1 are tried on every function that takes one; a decoy alignment of the same names and shape is evaluated before the first evaluation and between the first and the second; count profiles that do not cover the alignment must be refused. Distinct = distinct alignment content; non-trivial = at least 2 rows and at least one column with a tie for the most frequent admissible character. One run in 170 has 99-257 columns; there and in one run in ten of the others the alignment's own count profile also goes through a profile file. One run in twelve ends with 1-3 of 24 statistics commands (stats maxchar, consensus, compute entropy, stats gaps / mutations / mutations list / alleles with their flags) executed through the command tree in the same process: what they print must be the values of the library calls in the documented layout."
+	return "each run: a nucleotide or protein alignment of 1-7 rows x 1-10 columns whose columns are drawn from small palettes (2-3 letters, so that ties for the most frequent character are the rule), with all-gap, all-N/X, gap+N and single-kind columns and mixed case in a quarter of the runs; ~45 statistics are evaluated under map-iteration seeds a, a again, b and c (Go's map order is behind the seam spliced by seamgen); site indices -1, L, L+1 are tried on every function that takes one; a decoy alignment of the same names and shape is evaluated before the first evaluation and between the first and the second; count profiles that do not cover the alignment must be refused. Distinct = distinct alignment content; non-trivial = at least 2 rows and at least one column with a tie for the most frequent admissible character. One run in 170 has 99-257 columns; there and in one run in ten of the others the alignment's own count profile also goes through a profile file. One run in eight ends with 1-4 of some 90 statistics command lines (stats and stats --per-sequences, stats char in its three modes with --only, stats maxchar, consensus, compute entropy and pssm, stats gaps / mutations / mutations list / alleles / length / nseq, diff in both directions, with their flags) executed through the command tree in the same process: what they print must be the values of the library calls in the documented layout."
 }
 
 func (c14) Gen(rs uint64, tier string, race bool) interface{} {
@@ -177,8 +177,8 @@ func (c14) Gen(rs uint64, tier string, race bool) interface{} {
 		a.Seqs[0] = string(s)
 	}
 	c.MapSeeds = [3]uint64{r.U64(), r.U64(), r.U64()}
-	if !tall && !wide && r.Chance(0.08) {
-		c.Cli = r.Range(1, 3)
+	if !tall && !wide && r.Chance(0.12) {
+		c.Cli = r.Range(1, 4)
 	}
 	c.Ref = r.Intn(n)
 	// a profile from other rows over the same columns (some characters of the alignment are new to it)
@@ -1602,6 +1602,96 @@ func (c *C14Case) runCLI(ctx *Ctx, o *Outcome, al align.Alignment) {
 			return sb.String(), true
 		}})
 	}
+	// the summary, the per-sequence table (with and without a reference row) and the average entropy
+	charTable := func(sb *strings.Builder) {
+		cs := al.CharStats()
+		var keys []string
+		var total int64
+		for k, v := range cs {
+			keys = append(keys, string(k))
+			total += v
+		}
+		sort.Strings(keys)
+		sb.WriteString("char\tnb\tfreq\n")
+		for _, k := range keys {
+			fmt.Fprintf(sb, "%s\t%d\t%f\n", k, cs[k[0]], float64(cs[k[0]])/float64(total))
+		}
+	}
+	jobs = append(jobs, job{"stats", func() (string, bool) {
+		var sb strings.Builder
+		fmt.Fprintf(&sb, "length\t%d\nnseqs\t%d\navgalleles\t%.4f\nvariable sites\t%d\n", al.Length(), al.NbSequences(), al.AvgAllelesPerSite(), al.NbVariableSites())
+		charTable(&sb)
+		fmt.Fprintf(&sb, "alphabet\t%s\n", al.AlphabetStr())
+		return sb.String(), true
+	}})
+	for _, withRef := range []bool{false, true} {
+		a := "stats --per-sequences"
+		if withRef {
+			a += " --ref-sequence " + refName
+		}
+		jobs = append(jobs, job{a, func() (string, bool) {
+			gu, _, _, e1 := al.NumGapsUniquePerSequence(nil)
+			mu, _, _, e2 := al.NumMutationsUniquePerSequence(nil)
+			if e1 != nil || e2 != nil {
+				return "", false
+			}
+			uc := al.UniqueCharacters()
+			var sb strings.Builder
+			sb.WriteString("sequence\tgaps\tgapsstart\tgapsend\tgapsuniques\tgapsopenning\tmutuniques")
+			if withRef {
+				sb.WriteString("\tmutref")
+			}
+			sb.WriteString("\tlength")
+			for _, ch := range uc {
+				fmt.Fprintf(&sb, "\t%c", ch)
+			}
+			sb.WriteString("\n")
+			for i, q := range al.Sequences() {
+				m, err := al.CharStatsSeq(i)
+				if err != nil {
+					return "", false
+				}
+				fmt.Fprintf(&sb, "%s\t%d\t%d\t%d\t%d\t%d\t%d", q.Name(), q.NumGaps(), q.NumGapsFromStart(), q.NumGapsFromEnd(), gu[i], q.NumGapsOpenning(), mu[i])
+				if withRef {
+					k, err := q.NumMutationsComparedToReferenceSequence(al.Alphabet(), align.NewSequence("ref", []uint8(refSeq), ""))
+					if err != nil {
+						return "", false
+					}
+					fmt.Fprintf(&sb, "\t%d", k)
+				}
+				fmt.Fprintf(&sb, "\t%d", q.Length()-q.NumGaps())
+				for _, ch := range uc {
+					fmt.Fprintf(&sb, "\t%d", m[ch])
+				}
+				sb.WriteString("\n")
+			}
+			return sb.String(), true
+		}})
+	}
+	for _, rg := range []bool{false, true} {
+		a := "compute entropy --average"
+		if rg {
+			a += " --remove-gaps"
+		}
+		jobs = append(jobs, job{a, func() (string, bool) {
+			sum, cnt := 0.0, 0
+			for i := 0; i < al.Length(); i++ {
+				e, err := al.Entropy(i, rg)
+				if err != nil {
+					return "", false
+				}
+				if !math.IsNaN(e) {
+					sum += e
+					cnt++
+				}
+			}
+			return fmt.Sprintf("Alignment\tAvgEntropy\n0\t%.3f\n", sum/float64(cnt)), true
+		}})
+	}
+	jobs = append(jobs,
+		job{"stats length", func() (string, bool) { return fmt.Sprintf("%d\n", al.Length()), true }},
+		job{"stats nseq", func() (string, bool) { return fmt.Sprintf("%d\n", al.NbSequences()), true }},
+	)
 	// the difference view relative to the first sequence and back, by their definitions; the way back starts from
 	// the difference view of the alignment (rows full of '.')
 	view := func(rows []string, rev bool) []string {
